@@ -11,6 +11,11 @@ use registry::{EffectId, ResolveRegistry};
 // ResolveByte is public to be accessible from crux_macros
 #[doc(hidden)]
 pub use request_serde::ResolveSerialized;
+/// Verification hooks (feature `crux_verif`, off by default): the bridge's private registry types.
+#[cfg(feature = "crux_verif")]
+pub mod verif_hooks {
+    pub use super::registry::{EffectId, ResolveRegistry};
+}
 
 /// Request for a side-effect passed from the Core to the Shell. The `EffectId` links
 /// the `Request` with the corresponding call to [`Core::resolve`] to pass the data back
